@@ -187,6 +187,22 @@ func terminates(b []ast.Stmt) bool {
 	return false
 }
 
+func containsReturn(b []ast.Stmt) bool {
+	found := false
+	for _, s := range b {
+		ast.Inspect(s, func(n ast.Node) bool {
+			switch n.(type) {
+			case *ast.ReturnStmt:
+				found = true
+			case *ast.FuncLit:
+				return false
+			}
+			return true
+		})
+	}
+	return found
+}
+
 // isNilTest recognises `x == nil` / `x != nil` on an option-typed local
 func (g *glFunc) isNilTest(c ast.Expr) (name string, eq bool, ok bool) {
 	be, isb := c.(*ast.BinaryExpr)
@@ -304,6 +320,11 @@ func (g *glFunc) block(stmts []ast.Stmt, cont string) string {
 			return g.bad(s, "`!= nil` test")
 		}
 		c := g.expr(x.Cond)
+		if !hasElse && !terminates(x.Body.List) && containsReturn(x.Body.List) {
+			// a return somewhere inside a branch that may also fall through: the continuation is duplicated
+			return "if " + c + " then\n" + indent(g.block(append(append([]ast.Stmt{}, x.Body.List...), rest...), cont), "  ") +
+				"\nelse\n" + indent(g.block(rest, cont), "  ")
+		}
 		thenT := terminates(x.Body.List)
 		elseT := hasElse && terminates(elseStmts)
 		switch {
